@@ -40,12 +40,18 @@ type boundedCheck struct {
 
 var propConfigs = map[string]propConfig{
 	"C17": {},
-	"C09": {Gen: true},
-	"C10": {Gen: true},
-	"C12": {Gen: true},
-	"C08": {Gen: true},
-	"C11": {Gen: true},
-	"C18": {Gen: true},
+	"C09": {Gen: true, Bounded: []boundedCheck{{Name: "failing-sink", Run: "TestReplayC09", Module: true,
+		Bound: "sink failing at its k-th Write for every k < 400 (one-shot and sticky failures), three codecs, a 7-record workload of the Rec shape with page size 2 and two Write calls: every API call during which a sink write failed must return a non-nil error"}}},
+	"C10": {Gen: true, Bounded: []boundedCheck{{Name: "failing-source", Run: "TestReplayC10", Module: true,
+		Bound: "source failing at its k-th Read/Seek for every k the read performs (k < 5000), three codecs, a 9-record two-row-group file of the Rec shape with page size 3: an error is reported or every delivered row is correct"}}},
+	"C12": {Gen: true, Bounded: []boundedCheck{{Name: "page-statistics", Run: "TestReplayC12", Module: true,
+		Bound: "60 seeded record sets of the Rec shape (extreme, negative, NaN, empty and reserved-looking values injected), varying page sizes, uncompressed: null_count, min and max of every page header recomputed independently from the records"}}},
+	"C08": {Gen: true, Bounded: []boundedCheck{{Name: "fragmented-reads", Run: "TestReplayC08", Module: true,
+		Bound: "an 11-record two-row-group file of the Rec shape per codec read through sources returning at most 1, 2, 3, 7, 64 bytes per call, five seeded random short-read patterns and data together with io.EOF: same records, no error"}}},
+	"C11": {Gen: true, Bounded: []boundedCheck{{Name: "every-prefix", Run: "TestReplayC11", Module: true,
+		Bound: "every strict prefix of files (three codecs, three row groups) whose string values embed complete trailers of a smaller file and trailer look-alikes with footer lengths 0, 1, 2 and 2^31-1: none may be accepted"}}},
+	"C18": {Gen: true, Bounded: []boundedCheck{{Name: "unsupported-headers", Run: "TestReplayC18", Module: true,
+		Bound: "every page header of a Rec file rewritten in place to DICTIONARY/INDEX/V2 page types, non-PLAIN value encodings, BIT_PACKED level encodings, and a dictionary page without data page header, three codecs: every such file must be refused without panic"}}},
 	"C16": {Bounded: []boundedCheck{{Name: "independent-walk", Run: "TestReplayC16", Module: true,
 		Bound: "files of the Rec shape: 17 records, page sizes 1,2,3,5,100, partitions {17},{9,8},{4,6,7}, three codecs: PageHeaders(footer) compared (order and content) with an independent walk of every chunk page by page in file order, PageHeadersAtOffset compared per chunk; stands in for the one introspection function without a deductive contract (PageHeaders concatenates the per-chunk lists in row-group/column order)"}}},
 	"C02": {Gen: true, Bounded: []boundedCheck{{Name: "independent-parse", Run: "TestBoundedC02", Module: true,
